@@ -25,6 +25,14 @@ func engineMain(prop, tier string, seed uint64, out, replay string) error {
 	switch prop {
 	case "C18":
 		scens = genC18(r, tier, st)
+	case "C01":
+		scens = genC01(r, tier, st)
+	case "C02":
+		scens = genC02(r, tier, st)
+	case "C04":
+		scens = genC04(r, tier, st)
+	case "C05":
+		scens = genC05(r, tier, st)
 	default:
 		return fmt.Errorf("engine family has no generator for %q", prop)
 	}
@@ -67,7 +75,7 @@ func engineEmit(prop, out string, scens []taggedScen, st *stats) error {
 	st.Evaluations = len(scens)
 	controls := engineControls(jl)
 	st.Controls = len(controls)
-	n, err := writeShards(out, prop, "Base Script FlowTable Engine EngineCorr Spec"+prop,
+	n, err := writeShards(out, prop, engineImports(prop),
 		"escen", "eobs", "admits_engine", "spec_"+prop, cases, controls)
 	if err != nil {
 		return err
@@ -180,7 +188,7 @@ func engineReplay(prop, file, out string) error {
 	if out == "" {
 		return nil
 	}
-	_, err = writeShards(out, prop, "Base Script FlowTable Engine EngineCorr Spec"+prop,
+	_, err = writeShards(out, prop, engineImports(prop),
 		"escen", "eobs", "admits_engine", "spec_"+prop,
 		[]coqCase{{id: 0, scen: sc.Coq(), obs: obs.Coq()}}, nil)
 	if err != nil {
@@ -341,4 +349,11 @@ func genC18(r *rng, tier string, st *stats) []taggedScen {
 	st.Rule = "enumeration; a case is non-trivial when the post phase returns the empty action (normalisation is exercised); distinct by scenario hash"
 	_ = r
 	return out
+}
+
+func engineImports(prop string) string {
+	if prop == "C18" {
+		return "Base Script FlowTable Engine EngineCorr SpecC18"
+	}
+	return "Base Script FlowTable Engine EngineCorr SpecC18 Lifecycle SpecEngine"
 }
